@@ -269,4 +269,13 @@ example : (init.run (List.replicate 20 false ++ [true, true])).cur = .success :=
 example : notes [] [("a","x"),("a","x"),("a","y"),("b","x")] = [true,false,true,true] := by decide
 example : 1 ≤ init.maxCount := by decide
 
+/-! ### the notification streams of the monitor loop -/
+
+/-- obligation on the source: the two notification streams (status file read, file version) use different keys, there
+are no further streams, and the rate-limit table is created once per monitor loop (so `at_most_once_per_120` and
+`note_other_key` speak about the loop as it is wired) -/
+theorem state_streams_separate :
+    Gpa.Facts.stateKeyReadStatusFile ≠ Gpa.Facts.stateKeyFileVersion ∧ Gpa.Facts.stateKeyConstants = 2 ∧
+    Gpa.Facts.serviceStateCreations = 1 := by decide
+
 end Gpa.Props.C20
